@@ -33,7 +33,29 @@ META = {
     "technique": "Hypothesis over (server program, message) + enumeration of notification names; oracle = independent JSON-RPC grammar and documented error codes",
 }
 
-HANDLER_KINDS = ["str", "dict", "list", "int", "none", "object", "raise_value", "raise_runtime", "raise_key", "needs_arg", "nested_bad_json", "slow_str", "raise_slow"]
+HANDLER_KINDS = ["str", "dict", "list", "int", "none", "object", "raise_value", "raise_runtime", "raise_key", "needs_arg", "nested_bad_json", "slow_str", "raise_slow",
+                 "raise_code_int", "raise_code_str", "raise_code_none", "raise_code_callable", "raise_code_jsonrpc"]
+
+
+def foreign_exception(which: str) -> Exception:
+    """exceptions of other libraries that happen to carry a `code` (HTTP clients, database drivers, RPC stubs): to the
+    dispatcher they are handler failures like any other"""
+    class Foreign(Exception):
+        pass
+
+    e = Foreign("upstream said no")
+    if which == "int":
+        e.code = 404  # type: ignore[attr-defined]
+    elif which == "str":
+        e.code = "e3q8"  # type: ignore[attr-defined]
+    elif which == "none":
+        e.code = None  # type: ignore[attr-defined]
+    elif which == "callable":
+        e.code = lambda: 5  # type: ignore[attr-defined]
+    else:
+        e.code = -32602  # type: ignore[attr-defined]
+        e.data = {"x": {1, 2}}  # type: ignore[attr-defined]
+    return e
 
 
 def make_tool(kind: str):
@@ -56,6 +78,8 @@ def make_tool(kind: str):
             raise RuntimeError("boom")
         if kind == "raise_key":
             raise KeyError("k")
+        if kind.startswith("raise_code_"):
+            raise foreign_exception(kind[len("raise_code_"):])
         if kind == "nested_bad_json":
             return {"s": {1, 2}}
         if kind == "slow_str":
@@ -115,6 +139,8 @@ def build_server(prog: Dict[str, Any]):
             async def handler(message, session_id):
                 if k == "raise":
                     raise RuntimeError("custom boom")
+                if k.startswith("raise_code_"):
+                    raise foreign_exception(k[len("raise_code_"):])
                 if k == "raise_slow":
                     import asyncio as _a
 
@@ -329,7 +355,7 @@ _ids = st.one_of(
 def cases(draw):
     tools = draw(st.lists(st.sampled_from(HANDLER_KINDS), max_size=3))
     resources = draw(st.lists(st.sampled_from(["str", "none", "object", "raise"]), max_size=2))
-    custom = draw(st.lists(st.tuples(st.sampled_from(["x/custom", "notifications/cancelled", "notifications/progress", "y/other"]), st.sampled_from(["answer", "raise", "none", "answer_always", "raise_slow"])).map(list), max_size=2, unique_by=lambda t: t[0]))
+    custom = draw(st.lists(st.tuples(st.sampled_from(["x/custom", "notifications/cancelled", "notifications/progress", "y/other"]), st.sampled_from(["answer", "raise", "none", "answer_always", "raise_slow", "raise_code_int", "raise_code_str", "raise_code_none", "raise_code_callable"])).map(list), max_size=2, unique_by=lambda t: t[0]))
     prog = {"tools": tools, "resources": resources, "custom": custom}
     method = draw(st.one_of(
         st.sampled_from(["initialize", "ping", "tools/list", "tools/call", "resources/list", "resources/read", "tools/call", "resources/read"]),
@@ -405,6 +431,13 @@ def job_handlers(col: Collector, seed: int, tier: str) -> None:
         for rid in (1, 0, "a", ""):
             for how in ("parse", "unified", "specific"):
                 case = {"server": {"tools": [], "resources": [kind], "custom": []}, "method": "resources/read", "params": {"uri": "file:///r0"}, "how": how, "id": rid}
+                col.record(case, check(case))
+    for k in ("raise", "raise_code_int", "raise_code_str", "raise_code_none", "raise_code_callable", "raise_code_jsonrpc"):
+        for rid in (1, 0, "a", None):
+            for how in ("parse", "unified", "specific"):
+                case = {"server": {"tools": [], "resources": [], "custom": [["x/custom", k]]}, "method": "x/custom", "params": {}, "how": how}
+                if rid is not None:
+                    case["id"] = rid
                 col.record(case, check(case))
     col.exhaustive_parts.append(f"{len(HANDLER_KINDS)} tool handler behaviours x 5 argument shapes x 4 ids x 3 constructions; 4 resource handler behaviours x 4 ids x 3 constructions")
 
